@@ -10,7 +10,7 @@ use nodejs_semver::{Range, Version};
 use serde_json::json;
 use std::cmp::Ordering;
 
-pub const RULE: &str = "cases = (range, slice of 0..12 versions); lists are built from the probe set of the range's bounds (so they hold satisfying and non-satisfying elements, prereleases above the highest satisfying release, duplicates, versions equal up to build metadata), unsorted; every permutation for lists of length <= 5 (quick: <= 4), random shuffles above; oracle = candidates are the elements the crate's own satisfies admits; result None iff no candidate; otherwise the returned reference points into the slice, is a candidate, no candidate is above (below) it in the model order, permutations change the result only within its precedence class; non-trivial = the list has at least two candidates of different precedence and one non-candidate; distinct = distinct (range, list)";
+pub const RULE: &str = "cases = (range, slice of 0..12 versions); lists are built from the probe set of the range's bounds (so they hold satisfying and non-satisfying elements, prereleases above the highest satisfying release, duplicates, versions equal up to build metadata), unsorted; every permutation for lists of length <= 5 (quick: <= 4), random shuffles above, long lists of 33..257 elements (strategy switches by size); oracle = candidates are the elements the crate's own satisfies admits; result None iff no candidate; otherwise the returned reference points into the slice, is a candidate, no candidate is above (below) it in the model order, permutations change the result only within its precedence class; non-trivial = the list has at least two candidates of different precedence and one non-candidate; distinct = distinct (range, list)";
 
 fn permutations(n: usize) -> Vec<Vec<usize>> {
     let mut out = vec![];
@@ -124,7 +124,41 @@ pub fn judge(ctx: &mut Ctx, rtext: &str, list: &[MV], r: &mut Rng, max_perm_len:
     }
 }
 
+/// long lists (tens to hundreds of elements): implementations may switch strategy with size
+fn long_list_stratum(ctx: &mut Ctx) {
+    ctx.stratum("L-long-lists", false);
+    let n = ctx.tier.n(300, 30_000);
+    for i in 0..n {
+        if !ctx.take() {
+            continue;
+        }
+        let mut r = Rng::for_case(ctx.seed, "C14-L", i);
+        let ast = rand_ast(&mut r, &[0, 1, 2, 3], false);
+        let rtext = ast.plain_text();
+        let basis = desugar_range(&ast).map(|d| d.versions()).unwrap_or_default();
+        let mut pool = probe_set(&basis);
+        // a dense block of releases well above / below / across the bounds
+        let base = *r.pick(&[0u64, 1, 2, 3, 5]);
+        for mi in 0..10u64 {
+            for pa in 0..10u64 {
+                pool.push(MV::new(base, mi, pa));
+            }
+        }
+        r.shuffle(&mut pool);
+        let len = *r.pick(&[33usize, 63, 64, 65, 100, 127, 128, 129, 200, 257]);
+        let mut list: Vec<MV> = pool.iter().cycle().take(len).cloned().collect();
+        // only elements above (or below) every bounded end, in some cases
+        if r.chance(1, 4) {
+            list.retain(|v| v.major >= 2);
+        }
+        r.shuffle(&mut list);
+        ctx.class(&format!("long-list:{}", if list.len() >= 64 { ">=64" } else { "<64" }));
+        judge(ctx, &rtext, &list, &mut r, 0);
+    }
+}
+
 pub fn run(ctx: &mut Ctx) {
+    long_list_stratum(ctx);
     ctx.stratum("D-directed", true);
     let d: Vec<(&str, Vec<&str>)> = vec![
         ("1.2", vec!["1.2.3", "1.2.4"]),
